@@ -99,7 +99,9 @@ def apply(obj, ev: dict):
         f = 2.0 ** -40 if bind.get_layout() in ("strided", "grown") else 1.0
         arr = arr * f
         if sum(obj.tshape) % 2:
-            arr = sparse.coo_matrix(arr)
+            # scipy's storage format is a presentation of the same matrix (rotated with the array layout)
+            arr = {"default": sparse.coo_matrix, "swapped": sparse.csc_matrix, "strided": sparse.csr_matrix,
+                   "grown": sparse.csc_array}[bind.get_layout()](arr)
         r = ttb.sptenmat.from_array(arr, obj.rindices, obj.cindices, obj.tshape)
         if f != 1.0 and r.vals.size:
             r = ttb.sptenmat(r.subs.copy(), r.vals / f, r.rdims.copy(), r.cdims.copy(), r.tshape)
